@@ -1,7 +1,7 @@
 (* C06 specification: what each integer builtin must return, stated on mathematical integers
    only (no representation in sight), so `model = spec` is exactness AND independence from the
    representation of operands and intermediates. *)
-From Coq Require Import ZArith Bool.
+From Coq Require Import ZArith Bool List Znumtheory.
 From NV Require Import Common.Outcome Common.MachineInt Num.NInt.
 Open Scope Z_scope.
 
@@ -40,3 +40,9 @@ Definition spec_abs (a : Z) : outcome numv := Ok (VI (Z.abs a)).
 Definition spec_signum (a : Z) : outcome numv := Ok (VI (Z.sgn a)).
 Definition spec_even (a : Z) : outcome numv := Ok (vbool (Z.even a)).
 Definition spec_odd (a : Z) : outcome numv := Ok (vbool (Z.odd a)).
+
+(* factorize: the product a list of (base, exponent) pairs denotes, and what a listed pair may be:
+   the sign marker (-1, 1) or a prime with a positive exponent *)
+Definition fprod (l : list (Z * Z)) : Z := fold_right (fun pe r => fst pe ^ snd pe * r) 1 l.
+Definition good_factor (pe : Z * Z) : Prop :=
+  (fst pe = -1 /\ snd pe = 1) \/ (prime (fst pe) /\ 0 < snd pe).
